@@ -21,7 +21,7 @@ func c12RetryChains(c *Ctx) {
 	if c.Thorough() {
 		f = 4
 	}
-	faults := env.FaultSet{LostClose: true, WriteErr: true, AckLost: true, Silent: true, OnlyTypes: map[byte]bool{env.PUBLISH: true, env.PUBREL: true}}
+	faults := env.FaultSet{LostClose: true, WriteErr: true, AckLost: true, Silent: true, LateAck: true, OnlyTypes: map[byte]bool{env.PUBLISH: true, env.PUBREL: true}}
 	c.Bound("retry-chain", fmt.Sprintf("BaseClient.Publish(QoS 1|2) then ErrorWithRetry.Retry on a fresh connected client, chain depth <= %d; faults %+v on every PUBLISH/PUBREL; caller context with a 5 s (virtual) deadline, for the first call alternatively one that is already cancelled", f+1, faults))
 	for _, qd := range []int{1, 2, 5, 6} {
 		qos := mqtt.QoS(qd & 3)
